@@ -83,6 +83,9 @@ func (env *Env) typeOf(s string) types.Type {
 		return t
 	}
 	switch s {
+	case "F", "G1", "G2", "GT":
+		declareAlgebra()
+		return algType(s)
 	case "int":
 		return types.Typ[types.Int]
 	case "bool":
@@ -494,7 +497,7 @@ func (env *Env) evalIndex(e *SExpr) Val {
 	switch t := x.T.Underlying().(type) {
 	case *types.Slice:
 		hn, hs := elemHeapName(t.Elem())
-		return env.typed(Val{S: sel(sel(env.heap(hn, hs), slRef(x.S)), add(slOff(x.S), i.S)), T: t.Elem()})
+		return env.typed(Val{S: sel(sel(env.heap(hn, hs), slRef(x.S)), ix(slOff(x.S), i.S)), T: t.Elem()})
 	case *types.Basic:
 		if t.Info()&types.IsString != 0 {
 			return env.typed(Val{S: sel(strArr(x.S), i.S), T: types.Typ[types.Uint8]})
@@ -710,8 +713,8 @@ func (env *Env) sliceContentEq(a, b Val) string {
 	ha, hb := env.heap(hn, hs), env.heap(hn2, hs2)
 	q := fmt.Sprintf("qs!%d", env.quant+1)
 	return and(eq(slLen(a.S), slLen(b.S)),
-		fmt.Sprintf("(forall ((%s Int)) (=> (and (<= 0 %s) (< %s %s)) (= (select (select %s %s) (+ %s %s)) (select (select %s %s) (+ %s %s)))))",
-			q, q, q, slLen(a.S), ha, slRef(a.S), slOff(a.S), q, hb, slRef(b.S), slOff(b.S), q))
+		fmt.Sprintf("(forall ((%s Int)) (=> (and (<= 0 %s) (< %s %s)) (= (select (select %s %s) %s) (select (select %s %s) %s))))",
+			q, q, q, slLen(a.S), ha, slRef(a.S), ix(slOff(a.S), q), hb, slRef(b.S), ix(slOff(b.S), q)))
 }
 
 func (env *Env) evalCall(e *SExpr) Val {
